@@ -164,6 +164,15 @@ pub fn run_c07(tier: &str) -> Report {
     rep.sink.extend(vs);
     states += fam.len() as u64;
 
+    // beyond the BFS bounds: fan-outs above 4^8, and ordinary calls right after a refused call
+    let (ncalls, nids, v) = crate::checks::longlists::big_fanouts(tier);
+    rep.sink.extend(v);
+    rep.set("fanouts_above_4^8_calls", json!(ncalls));
+    rep.set("fanouts_above_4^8_ids_compared", json!(nids));
+    let (npairs, v) = crate::checks::longlists::after_refusal(tier);
+    rep.sink.extend(v);
+    rep.set("refused_then_valid_call_pairs", json!(npairs));
+
     rep.set("states", json!(states));
     rep.set("transitions", json!(transitions.load(Ordering::Relaxed)));
     rep.set("traces_validated_against_impl", json!(levels_validated));
@@ -176,7 +185,7 @@ pub fn run_c07(tier: &str) -> Report {
     rep.set("exhaustive_scope", json!(format!("all cells of resolution -1..{}", rmax)));
     rep.sample(json!({"cell": subj::hex(level[level.len() / 2]), "checked": "children, parent-of-child, all ancestor pairs, jumps"}));
     rep.sample(json!({"family_cell": subj::hex(*fam.last().unwrap())}));
-    rep.assume("calls whose fan-out exceeds 4^8 are out of scope");
+    rep.assume("fan-outs above 4^8 are checked on the listed calls only (up to 4^9..4^12 per call)");
     rep.assume("resolutions above the exhaustive bound are covered on digit-pattern families only");
     rep
 }
@@ -390,6 +399,9 @@ pub fn run_c20(tier: &str) -> Report {
 }
 
 pub fn replay_c07(case: &Value) -> Vec<Viol> {
+    if let Some(v) = crate::checks::longlists::replay(case) {
+        return v;
+    }
     if let Some(s) = case["id"].as_str() {
         let c = u64::from_str_radix(s, 16).unwrap();
         let t = AtomicU64::new(0);
